@@ -4,6 +4,7 @@ CONSTANTS
   NUp = 1
   NDown = 1
   MaxFaults = 2
+  MaxDrops = 1
 SPECIFICATION FairSpec
 INVARIANTS TypeOK PrefixDelivered OnlyOwnSegments OneAcceptPerSession OneCurrent NeverDead
 PROPERTIES EventuallyDelivered
